@@ -214,11 +214,19 @@ impl Operation {
 
     #[doc(hidden)]
     pub fn assign_path_param_name(&mut self, name: impl Into<std::borrow::Cow<'static, str>>) {
-        if let Some(empty_param) = self.parameters.iter_mut()
+        match self.parameters.iter_mut()
             .filter(|p| p.is_path())
             .find(|p| p.name.is_empty())
         {
-            empty_param.name = name.into();
+            Some(empty_param) => empty_param.name = name.into(),
+
+            /* the handler doesn't take this param of the route; still
+               every `{param}` of a path template must be declared */
+            None => {
+                let mut param = Parameter::in_path(super::string());
+                param.name = name.into();
+                self.parameters.push(param);
+            }
         }
     }
 
